@@ -15,6 +15,7 @@ META = {
     'not_decided': ['agreement of the slot arithmetic (total_len()-1 vs abs_index+index) for every enter/leave/define history', 'run-time values of variables'],
 }
 META['explanation'] += " R09.1 also: a declaration made by a statement of a block (branch, loop body, bare block) is entered in the block's own scope, never in the scope around it."
+META['explanation'] += ' R09.9 `stel` and a named `functie` store into the slot define() hands out on that path, never into a variable of the same name found by a lookup. R09.4 also: a lookup that fails without ending the compilation (the attempt at a fused instruction) is repeated, or the name is declared, on every ok-exit.'
 SYM = 'src/symbols.rs'
 
 
